@@ -209,6 +209,15 @@ def check_obstacle(r, ctx):
                 if d:
                     raise Violation("moved-occupancy-geometry-" + ob["role"], "t=%d after translate_rotate(%r, %r): %s"
                                     % (ts, t, a, d))
+                es = expected_state(ob, ts) if ob["role"] in ("static", "dynamic") else None
+                if es is not None and isinstance(es["a"].get("position"), list):
+                    # the state returned for ts is the moved state (it was queried before the motion)
+                    got = obj.state_at_time(ts)
+                    want = geom.rigid(es["a"]["position"], t, a)
+                    if got is None or got.time_step != es["t"] or geom.dist(list(map(float, got.position)), want) > \
+                            1e-8 * (1 + abs(want[0]) + abs(want[1])):
+                        raise Violation("moved-state-" + ob["role"], "t=%d after translate_rotate(%r, %r): state %r, "
+                                        "expected position %r" % (ts, t, a, got, want))
         ctx.label("with-motion")
     if ob.get("_update") and ob["role"] == "dynamic":
         # the obstacle receives a new initial state through the public updater: from then on the occupancy at the new
